@@ -11,13 +11,15 @@ CLAIMED = {
          "file with the matching format must return the written track/network to the promised precision. "
          "Sampled, not exhaustive; exact replay of every failure.",
          "SimFS / SimClock stand in for disk and clock; restart after crash is emulated in-process; "
-         "the model and oracles in sim/worlds/io.py are trusted; KML/GeoJSON/NMEA and feature columns are out of scope.",
+         "the model and oracles in sim/worlds/io.py are trusted; KML / GeoJSON are only run as exports before a CSV "
+         "round trip, NMEA and named track formats are not run, values of CSV feature columns are not judged.",
          "§4 C13"),
  "C01": ("track", "Seeded search over long operation histories (create / update / delete / bracket assignment / "
          "every operator object / random expression trees of 2..14 operator applications / rejected requests / "
          "user callables that raise at a seeded invocation / operators refusing values outside their domain / forked, "
          "span-copied and noised copies) on long-lived tracks of several interleaved sessions, checked after every "
-         "step against an independent column model with unique values.",
+         "step against an independent column model with unique values; tracks are also handed to collection-level wrappers "
+         "and to read-only functions of neighbouring modules, which must leave no trace.",
          "In-memory world: injected faults are refused requests, failing user callables and provoked domain errors "
          "(never pre-emption inside library code); values of operators without a one-line definition are adopted, "
          "not judged; atomicity of a refused call is not demanded; model in sim/worlds/track.py is trusted.", "§4 C01"),
@@ -29,23 +31,29 @@ CLAIMED = {
  "C17": ("track", "Seeded search over histories that recompute abs_curv / speed / ds on the same track after deletions, "
          "other feature operations, in-place transformations and timestamp edits (the cached-feature paths, the "
          "always-recomputing addAnalyticalFeature path, caller-computed ds), on several interleaved sessions including "
-         "noised and span copies, compared with the geometric definitions.",
+         "noised, span and idle-end-trimmed copies, profile plots and stop detection as further users of the speeds, several "
+         "local time zones of the process, compared with the geometric definitions.",
          "Thin claim: the arithmetic is a pure function and only sampled; a cache that predates a geometry edit is "
          "recorded, not judged.", "§4 C17"),
  "C06": ("net", "Seeded search over query histories on long-lived growing multigraphs (single pair, one-to-all, "
          "all-pairs with cut-off, prepared tables modelled exactly incl. accumulation, edge re-weighing, sub-network "
          "extraction sharing objects with its parent, network reload and save_prep / load_prep on the simulated disk "
-         "with open/read/write errors), every answer compared with Floyd-Warshall on an independent model.",
-         "Weights are small dyadic rationals or geometric lengths; single-pair queries with finite cut are not "
-         "generated; model in sim/worlds/net.py is trusted.", "§4 C06"),
+         "with open/read/write errors, interrupted preparations, refused requests, junctions declared on their own, numpy-typed "
+         "identifiers and weights), every answer compared with Floyd-Warshall on an independent model.",
+         "Weights are small dyadic rationals (also scaled by 2^-34) or geometric lengths; single-pair distance queries with "
+         "a finite cut are not generated; networks with identifiers of mixed types are not generated; the state after a "
+         "failed addEdge is not judged; model in sim/worlds/net.py is trusted.", "§4 C06"),
  "C07": ("net", "Same histories with shortest_path: node list is a permitted walk of optimal weight and the geometry "
-         "is the chained, travel-oriented edge polylines (dynamic programme over parallel edges).",
-         "As C06.", "§4 C07"),
+         "is the chained, travel-oriented edge polylines (dynamic programme over parallel edges); two-phase API with other "
+         "users' calls (extractions, deep copies, half of them interrupted) between the phases; searches bounded by the exact distance.",
+         "As C06; junction vertices of a network that went through geographic coordinates are compared to 0.1 mm.", "§4 C07"),
  "C10": ("net", "Seeded search over sequences of map-matching calls that share module globals, a network, its spatial "
          "index and prepared distances (two alternating sessions, re-mapping, growth between calls, networks loaded "
-         "from simulated disk, unit change in place, interrupts inside the matching, I/O errors on its debug file); "
-         "every inferred state checked geometrically.",
-         "HMM optimality is C09's subject and not judged; networks with degenerate extent are not indexed.", "§4 C10"),
+         "from simulated disk, unit change in place, geographic round trips, ring roads, densely digitised roads, interrupts inside "
+         "the matching with retries, I/O errors on its debug file, matched points edited by their caller); every inferred state "
+         "checked geometrically.",
+         "HMM optimality is C09's subject and not judged; networks with degenerate extent are not indexed; road networks are "
+         "consistent (a junction is where its roads end); three known findings in proj_segment are listed, not raised.", "§4 C10"),
 }
 NA = {
  "C02": "pure function of (expression, feature vectors): the evaluator keeps a local temporary counter and purges every '#' feature before returning; nothing for a schedule or fault to decide (state-transition clauses are exercised under C01)",
